@@ -525,9 +525,22 @@ def hist_c18(out, sim, rng, n, extra):
             b, e = first, last
         if e and e < b:
             e = b
+        # the request itself may be numbered ahead of sequence (messages before it were lost): it is answered all the same (a request
+        # is never retransmitted, so skipping it would leave the peer waiting for ever); the session asks for its own gap as well
+        ahead = rq == nrequests - 1 and rng.random() < 0.25
+        if ahead:
+            s.peer_seq += rng.randint(1, 3)
+            kind += '+request-ahead-of-sequence'
         mark = len(s.wire)
         r = s.inject(s.peer_msg('2', [(7, b), (16, e)]))
         replies = s.wire[mark:]
+        if ahead:
+            own = [m for m in replies if m.type == '2' and not m.possdup]
+            replies = [m for m in replies if not (m.type == '2' and not m.possdup)]
+            out.stat('requests_ahead_of_sequence')
+            if not own:
+                out.v('oracle:no-resend-request-for-own-gap', 'case %d: request numbered ahead of sequence, the session did not ask for the gap; replies=%s' % (
+                    n, [(x.type, x.seq) for x in s.wire[mark:]]), s)
         out.stat('resend_requests')
         ctx = 'case %d role=%s persist=%s pattern=%s sent=%d..%d request=[%d,%d] (%s)' % (n, role, persist, ''.join(pattern), first, last, b, e, kind)
         # the range the statement talks about
@@ -590,7 +603,7 @@ def hist_c18(out, sim, rng, n, extra):
         if ok and not replies:
             out.v('oracle:no-reply|' + kind, ctx, s)
         out.distinct('request_shape', hash((persist, ''.join(pattern)[-10:], b - first, e - first if e else -1)))
-        if not ok:
+        if not ok or ahead:
             break
         # afterwards: new messages continue (from the last NewSeqNo announced when the reply ended with a gap fill that went beyond)
         q2 = s.q()
@@ -621,7 +634,7 @@ def c18(tier, seed):
     c.distinct_names = ['request_shape']
     c.rule = ('a real Session sends a random pattern of application messages (single and batched; stored) and heartbeats (not stored), then receives '
               'ResendRequests of 8 kinds (inside, to infinity, single number, from 1, end beyond the latest, begin beyond the latest, whole range; '
-              'one or two in a row; file / memory / no persister); the reply read from the socket is walked against an independent model: '
+              'one or two in a row; the last one in a quarter of the cases numbered ahead of sequence itself; file / memory / no persister); the reply read from the socket is walked against an independent model: '
               'every stored number of the range replayed once in ascending order with its original number and body, PossDupFlag=Y and '
               'OrigSendingTime = original SendingTime; every gap fill carries the first number of its gap and a NewSeqNo that skips no stored '
               'message; the range is covered completely; the next new message continues from the right number; evaluations = requests')
